@@ -75,9 +75,9 @@ def run(ctx: Ctx) -> None:
     model = ExcModel(ctx.repo, ctx.res)
 
     # ------------------------------------------------------------------ A: nothing request-derived escapes a responder
+    ea = EscapeAnalysis(ctx.repo, ctx.res, model, partial=make_partial({}), depth=8)
     for cname in RESOURCES:
         fi = ctx.fn(f"{RES}:{cname}.on_post")
-        ea = EscapeAnalysis(ctx.repo, ctx.res, model, partial=make_partial({}), depth=8)
         esc = ea.escapes(fi)
         seen: set[str] = set()
         for e in esc:
@@ -111,7 +111,6 @@ def run(ctx: Ctx) -> None:
 
     for spec in (HTTP_UNARY, HTTP_INIT, HTTP_EXCHANGE):
         fi = ctx.fn(spec)
-        ea = EscapeAnalysis(ctx.repo, ctx.res, model, partial=make_partial({}), depth=8)
         seen2: set[str] = set()
         for e in ea.escapes(fi):
             if e.cls in ("_RpcHttpError", "AssertionError") or model.is_sub(e.cls, "_RpcHttpError"):
@@ -183,8 +182,13 @@ def run(ctx: Ctx) -> None:
     ifs = [n for n in walk_scope(shs.node) if isinstance(n, ast.If)]
     g = one(ifs, "status translation test", shs)
     param = [a.arg for a in shs.node.args.args][1]
-    t500 = bool(mini_eval(g.test, {param: "S500", "HTTPStatus.INTERNAL_SERVER_ERROR": "S500"}))
-    t400 = bool(mini_eval(g.test, {param: "S400", "HTTPStatus.INTERNAL_SERVER_ERROR": "S500"}))
+    senv: dict[str, object] = {txt(a): "S_" + a.attr for a in ast.walk(g.test) if isinstance(a, ast.Attribute) and txt(a.value).endswith("HTTPStatus")}
+    senv["HTTPStatus.INTERNAL_SERVER_ERROR"] = "S_INTERNAL_SERVER_ERROR"
+    t500 = bool(mini_eval(g.test, {**senv, param: "S_INTERNAL_SERVER_ERROR"}))
+    t400 = bool(mini_eval(g.test, {**senv, param: "S_BAD_REQUEST"}))
+    t503 = bool(mini_eval(g.test, {**senv, param: "S_SERVICE_UNAVAILABLE"}))
+    if t503 == t500 and t500 != t400:
+        t400 = t500  # the test does not single out 500 (e.g. `!= OK`): force the failure below
     ctx.check(t500 != t400, "RF-TABLE", "translation-tests-for-500-only", shs, g, ok="the translation branch is taken exactly for INTERNAL_SERVER_ERROR", bad="the 500->200 translation test does not single out INTERNAL_SERVER_ERROR")
     br500 = g.body if t500 else g.orelse
     brother = g.orelse if t500 else g.body
